@@ -383,6 +383,16 @@ def user_script(w):
         except KeyboardInterrupt:
             sched.emit('user.kbd', where='shutdown')
             sched.emit('user.shutdown_returned')
+    elif script == 'with_clean':
+        # leave the with-block normally right after submitting: __exit__ does the waiting
+        try:
+            with m:
+                for i in range(n):
+                    submit_transfer(w, i)
+            sched.emit('user.shutdown_returned')
+        except KeyboardInterrupt:
+            sched.emit('user.kbd', where='with-exit')
+            sched.emit('user.shutdown_returned', raised='KeyboardInterrupt')
     elif script in ('with', 'with_raise_kbd', 'with_raise_value', 'with_raise_empty'):
         try:
             with m:
